@@ -21,20 +21,20 @@ private theorem dec_natCast_le (a b : Nat) : decide ((a : Int) ≤ (b : Int)) = 
 
 /-! ### time caches (C18) -/
 
-theorem sweepExpired_leaves : Gen.sweepExpired_leaves = ["time.Since(element.timestamp) : Int", "element.span : Int"] := rfl
+theorem sweepExpired_leaves : Gen.sweepExpired_leaves = ["element.span : Int", "time.Since(element.timestamp) : Int"] := rfl
 
 /-- the deletion test of `sweep` is the model's: an entry goes iff `now − timestamp > span` (strictly) -/
 theorem sweepExpired_eq (now : Nat) (e : TimeCache.Entry) :
-    decide (now - e.timestamp > e.span) = Gen.sweepExpired ((now - e.timestamp : Nat) : Int) e.span := by
+    decide (now - e.timestamp > e.span) = Gen.sweepExpired (time_Since_element_timestamp := ((now - e.timestamp : Nat) : Int)) (element_span := e.span) := by
   simp only [Gen.sweepExpired, gt_iff_lt, dec_natCast_lt]
 
 
-theorem upsertExtendsSpan_leaves : Gen.upsertExtendsSpan_leaves = ["existing.span : Int", "duration : Int"] := rfl
+theorem upsertExtendsSpan_leaves : Gen.upsertExtendsSpan_leaves = ["duration : Int", "existing.span : Int"] := rfl
 
 /-- `upsert` of a present key: the source replaces the span exactly when the stored one is strictly smaller — the model's
     `max` (an Upsert never shortens the life of a key) -/
 theorem upsert_span_eq_source (stored given : Nat) :
-    max stored given = (if Gen.upsertExtendsSpan stored given then given else stored) := by
+    max stored given = (if Gen.upsertExtendsSpan (existing_span := stored) (duration := given) then given else stored) := by
   simp only [Gen.upsertExtendsSpan, dec_natCast_lt, decide_eq_true_eq]
   by_cases h : stored < given
   · simp [h, Nat.max_eq_right (Nat.le_of_lt h)]
